@@ -209,3 +209,328 @@ Theorem C02_explicit_new_value_lost_pinned :
   (evs <- xml_encode_pinned e_mesh EIgnoreUnknown mesh_both [1] ;; revs <- channel evs ;; xml_decode e_mesh DIgnoreUnknown revs)
   = Ok [mkInst 1 0 (B "Mesh") (B "m") [(B "MeshContent", VContent (CUri (B "legacy")))]].
 Proof. exact explicit_new_value_lost_pinned. Qed.
+
+(* ==== the remaining value types (Proofs/XmlCompound2.v): write_xml -> channel -> read_value_xml gives back the value, for ALL values of
+   the type for which the writer succeeds: Vector2, Color3, Color3uint8, UDim, UDim2, Rect, Ray, Vector3int16, Vector2int16,
+   NumberRange, CFrame (finite components bit-exact; non-finite ones through Rust's Display spelling, NaN canonicalised),
+   null Ref / referent text, Content, ContentId, NumberSequence / ColorSequence (two or more keypoints: shorter ones are written
+   but REJECTED by the reader — *_not_read_back), UniqueId, Font, PhysicalProperties, OptionalCFrame, SecurityCapabilities, Faces,
+   Axes, SharedString key.  Premises on the float text oracle are stated in each theorem. *)
+From RbxVerif Require Import XmlCompound2.
+
+Theorem C02_vector2_roundtrip :
+  forall o : xoracle,
+  (forall (x : f32) (t : bytes),
+     f32_is_nan x = false -> x <> F32_INF -> x <> F32_NINF -> xo_show32 o x = Some t ->
+     xo_parse32 o t = Some (Some x) /\ t <> B "INF" /\ t <> B "-INF" /\ t <> B "NAN") ->
+  forall (v : vec2) (evs : list wevent),
+  write_xml o (VVector2 v) = Some (B "Vector2", Ok evs) ->
+  forall name : bytes, exists revs : list revent,
+    chan_go [] t0 (WStart (B "Vector2") [(B "name", name)] :: evs ++ [WEnd]) = Ok revs /\
+    read_value_xml o (B "Vector2") revs = Ok (RVal (VVector2 (mkV2 (norm_f32 (v2x v)) (norm_f32 (v2y v)))), []).
+Proof. exact vector2_roundtrip. Qed.
+
+Theorem C02_color3_roundtrip :
+  forall o : xoracle,
+  (forall (x : f32) (t : bytes),
+     f32_is_nan x = false -> x <> F32_INF -> x <> F32_NINF -> xo_show32 o x = Some t ->
+     xo_parse32 o t = Some (Some x) /\ t <> B "INF" /\ t <> B "-INF" /\ t <> B "NAN") ->
+  forall (r g b : f32) (evs : list wevent),
+  write_xml o (VColor3 r g b) = Some (B "Color3", Ok evs) ->
+  forall name : bytes, exists revs : list revent,
+    chan_go [] t0 (WStart (B "Color3") [(B "name", name)] :: evs ++ [WEnd]) = Ok revs /\
+    read_value_xml o (B "Color3") revs = Ok (RVal (VColor3 (norm_f32 r) (norm_f32 g) (norm_f32 b)), []).
+Proof. exact color3_roundtrip. Qed.
+
+Theorem C02_color3uint8_roundtrip :
+  forall (o : xoracle) (r g b : N) (evs : list wevent),
+  r < 256 -> g < 256 -> b < 256 ->
+  write_xml o (VColor3uint8 r g b) = Some (B "Color3uint8", Ok evs) ->
+  forall name : bytes, exists revs : list revent,
+    chan_go [] t0 (WStart (B "Color3uint8") [(B "name", name)] :: evs ++ [WEnd]) = Ok revs /\
+    read_value_xml o (B "Color3uint8") revs = Ok (RVal (VColor3uint8 r g b), []).
+Proof. exact color3uint8_roundtrip. Qed.
+
+Theorem C02_udim_roundtrip :
+  forall o : xoracle,
+  (forall (x : f32) (t : bytes),
+     f32_is_nan x = false -> x <> F32_INF -> x <> F32_NINF -> xo_show32 o x = Some t ->
+     xo_parse32 o t = Some (Some x) /\ t <> B "INF" /\ t <> B "-INF" /\ t <> B "NAN") ->
+  forall (u : udim) (evs : list wevent),
+  (-2147483648 <= ud_offset u <= 2147483647)%Z ->
+  write_xml o (VUDim u) = Some (B "UDim", Ok evs) ->
+  forall name : bytes, exists revs : list revent,
+    chan_go [] t0 (WStart (B "UDim") [(B "name", name)] :: evs ++ [WEnd]) = Ok revs /\
+    read_value_xml o (B "UDim") revs = Ok (RVal (VUDim (mkUDim (norm_f32 (ud_scale u)) (ud_offset u))), []).
+Proof. exact udim_roundtrip. Qed.
+
+Theorem C02_udim2_roundtrip :
+  forall o : xoracle,
+  (forall (x : f32) (t : bytes),
+     f32_is_nan x = false -> x <> F32_INF -> x <> F32_NINF -> xo_show32 o x = Some t ->
+     xo_parse32 o t = Some (Some x) /\ t <> B "INF" /\ t <> B "-INF" /\ t <> B "NAN") ->
+  forall (x y : udim) (evs : list wevent),
+  (-2147483648 <= ud_offset x <= 2147483647)%Z -> (-2147483648 <= ud_offset y <= 2147483647)%Z ->
+  write_xml o (VUDim2 x y) = Some (B "UDim2", Ok evs) ->
+  forall name : bytes, exists revs : list revent,
+    chan_go [] t0 (WStart (B "UDim2") [(B "name", name)] :: evs ++ [WEnd]) = Ok revs /\
+    read_value_xml o (B "UDim2") revs
+      = Ok (RVal (VUDim2 (mkUDim (norm_f32 (ud_scale x)) (ud_offset x)) (mkUDim (norm_f32 (ud_scale y)) (ud_offset y))), []).
+Proof. exact udim2_roundtrip. Qed.
+
+Theorem C02_rect_roundtrip :
+  forall o : xoracle,
+  (forall (x : f32) (t : bytes),
+     f32_is_nan x = false -> x <> F32_INF -> x <> F32_NINF -> xo_show32 o x = Some t ->
+     xo_parse32 o t = Some (Some x) /\ t <> B "INF" /\ t <> B "-INF" /\ t <> B "NAN") ->
+  forall (lo hi : vec2) (evs : list wevent),
+  write_xml o (VRect lo hi) = Some (B "Rect2D", Ok evs) ->
+  forall name : bytes, exists revs : list revent,
+    chan_go [] t0 (WStart (B "Rect2D") [(B "name", name)] :: evs ++ [WEnd]) = Ok revs /\
+    read_value_xml o (B "Rect2D") revs = Ok (RVal (VRect (norm_v2 lo) (norm_v2 hi)), []).
+Proof. exact rect_roundtrip. Qed.
+
+Theorem C02_ray_roundtrip :
+  forall o : xoracle,
+  (forall (x : f32) (t : bytes),
+     f32_is_nan x = false -> x <> F32_INF -> x <> F32_NINF -> xo_show32 o x = Some t ->
+     xo_parse32 o t = Some (Some x) /\ t <> B "INF" /\ t <> B "-INF" /\ t <> B "NAN") ->
+  forall (orig dir : vec3) (evs : list wevent),
+  write_xml o (VRay orig dir) = Some (B "Ray", Ok evs) ->
+  forall name : bytes, exists revs : list revent,
+    chan_go [] t0 (WStart (B "Ray") [(B "name", name)] :: evs ++ [WEnd]) = Ok revs /\
+    read_value_xml o (B "Ray") revs = Ok (RVal (VRay (norm_v3 orig) (norm_v3 dir)), []).
+Proof. exact ray_roundtrip. Qed.
+
+Theorem C02_vector3int16_roundtrip :
+  forall (o : xoracle) (x y z : Z) (evs : list wevent),
+  (-32768 <= x <= 32767)%Z -> (-32768 <= y <= 32767)%Z -> (-32768 <= z <= 32767)%Z ->
+  write_xml o (VVector3int16 x y z) = Some (B "Vector3int16", Ok evs) ->
+  forall name : bytes, exists revs : list revent,
+    chan_go [] t0 (WStart (B "Vector3int16") [(B "name", name)] :: evs ++ [WEnd]) = Ok revs /\
+    read_value_xml o (B "Vector3int16") revs = Ok (RVal (VVector3int16 x y z), []).
+Proof. exact vector3int16_roundtrip. Qed.
+
+Theorem C02_vector2int16_roundtrip :
+  forall (o : xoracle) (x y : Z) (evs : list wevent),
+  (-32768 <= x <= 32767)%Z -> (-32768 <= y <= 32767)%Z ->
+  write_xml o (VVector2int16 x y) = Some (B "Vector2int16", Ok evs) ->
+  forall name : bytes, exists revs : list revent,
+    chan_go [] t0 (WStart (B "Vector2int16") [(B "name", name)] :: evs ++ [WEnd]) = Ok revs /\
+    read_value_xml o (B "Vector2int16") revs = Ok (RVal (VVector2int16 x y), []).
+Proof. exact vector2int16_roundtrip. Qed.
+
+Theorem C02_physical_properties_roundtrip :
+  forall o : xoracle,
+  (forall (x : f32) (t : bytes),
+     f32_is_nan x = false -> x <> F32_INF -> x <> F32_NINF -> xo_show32 o x = Some t ->
+     xo_parse32 o t = Some (Some x) /\ t <> B "INF" /\ t <> B "-INF" /\ t <> B "NAN") ->
+  forall (p : option physprops) (evs : list wevent),
+  write_xml o (VPhysicalProperties p) = Some (B "PhysicalProperties", Ok evs) ->
+  forall name : bytes, exists revs : list revent,
+    chan_go [] t0 (WStart (B "PhysicalProperties") [(B "name", name)] :: evs ++ [WEnd]) = Ok revs /\
+    read_value_xml o (B "PhysicalProperties") revs = Ok (RVal (VPhysicalProperties (norm_phys p)), []).
+Proof. exact physical_properties_roundtrip. Qed.
+
+(* CFrame: (i) under the premise of C02_vector3_roundtrip, every CFrame with finite components, bit-exactly *)
+Theorem C02_cframe_roundtrip_finite :
+  forall o : xoracle,
+  (forall (x : f32) (t : bytes),
+     f32_is_nan x = false -> x <> F32_INF -> x <> F32_NINF -> xo_show32 o x = Some t ->
+     xo_parse32 o t = Some (Some x) /\ t <> B "INF" /\ t <> B "-INF" /\ t <> B "NAN") ->
+  forall (c : cframe) (evs : list wevent),
+  P_cf (fun x => f32_is_nan x = false /\ x <> F32_INF /\ x <> F32_NINF) c ->
+  write_xml o (VCFrame c) = Some (B "CoordinateFrame", Ok evs) ->
+  forall name : bytes, exists revs : list revent,
+    chan_go [] t0 (WStart (B "CoordinateFrame") [(B "name", name)] :: evs ++ [WEnd]) = Ok revs /\
+    read_value_xml o (B "CoordinateFrame") revs = Ok (RVal (VCFrame c), []).
+Proof. exact (fun o law c evs => cframe_roundtrip_finite o c evs law). Qed.
+
+(* (ii) every CFrame, if the oracle's Display texts of ALL floats (also `inf`, `-inf`, `NaN`) parse back *)
+Theorem C02_cframe_roundtrip_all :
+  forall o : xoracle,
+  (forall (x : f32) (t : bytes), True -> xo_show32 o x = Some t ->
+     xo_parse32 o t = Some (Some (norm_f32 x)) /\ t <> B "INF" /\ t <> B "-INF" /\ t <> B "NAN") ->
+  forall (c : cframe) (evs : list wevent),
+  write_xml o (VCFrame c) = Some (B "CoordinateFrame", Ok evs) ->
+  forall name : bytes, exists revs : list revent,
+    chan_go [] t0 (WStart (B "CoordinateFrame") [(B "name", name)] :: evs ++ [WEnd]) = Ok revs /\
+    read_value_xml o (B "CoordinateFrame") revs = Ok (RVal (VCFrame (norm_cf c)), []).
+Proof. exact (fun o dl c evs => cframe_roundtrip_all o c evs dl). Qed.
+
+Theorem C02_optional_cframe_roundtrip_finite :
+  forall o : xoracle,
+  (forall (x : f32) (t : bytes),
+     f32_is_nan x = false -> x <> F32_INF -> x <> F32_NINF -> xo_show32 o x = Some t ->
+     xo_parse32 o t = Some (Some x) /\ t <> B "INF" /\ t <> B "-INF" /\ t <> B "NAN") ->
+  forall (c : option cframe) (evs : list wevent),
+  match c with Some cf => P_cf finite32 cf | None => True end ->
+  write_xml o (VOptionalCFrame c) = Some (B "OptionalCoordinateFrame", Ok evs) ->
+  forall name : bytes, exists revs : list revent,
+    chan_go [] t0 (WStart (B "OptionalCoordinateFrame") [(B "name", name)] :: evs ++ [WEnd]) = Ok revs /\
+    read_value_xml o (B "OptionalCoordinateFrame") revs = Ok (RVal (VOptionalCFrame c), []).
+Proof. exact (fun o law c evs => optional_cframe_roundtrip_finite o c evs law). Qed.
+
+Theorem C02_optional_cframe_roundtrip_all :
+  forall o : xoracle, display_law o all32 ->
+  forall (c : option cframe) (evs : list wevent),
+  write_xml o (VOptionalCFrame c) = Some (B "OptionalCoordinateFrame", Ok evs) ->
+  forall name : bytes, exists revs : list revent,
+    chan_go [] t0 (WStart (B "OptionalCoordinateFrame") [(B "name", name)] :: evs ++ [WEnd]) = Ok revs /\
+    read_value_xml o (B "OptionalCoordinateFrame") revs = Ok (RVal (VOptionalCFrame (option_map norm_cf c)), []).
+Proof. exact (fun o dl c evs => optional_cframe_roundtrip_all o c evs dl). Qed.
+
+Theorem C02_number_range_roundtrip_finite :
+  forall o : xoracle,
+  (forall (x : f32) (t : bytes),
+     f32_is_nan x = false -> x <> F32_INF -> x <> F32_NINF -> xo_show32 o x = Some t ->
+     xo_parse32 o t = Some (Some x) /\ t <> B "INF" /\ t <> B "-INF" /\ t <> B "NAN") ->
+  (forall (x : f32) (t : bytes), xo_show32 o x = Some t -> t <> [] /\ Forall (fun c => 32 < c < 127) t) ->
+  forall (lo hi : f32) (evs : list wevent),
+  finite32 lo -> finite32 hi ->
+  write_xml o (VNumberRange lo hi) = Some (B "NumberRange", Ok evs) ->
+  forall name : bytes, exists revs : list revent,
+    chan_go [] t0 (WStart (B "NumberRange") [(B "name", name)] :: evs ++ [WEnd]) = Ok revs /\
+    read_value_xml o (B "NumberRange") revs = Ok (RVal (VNumberRange lo hi), []).
+Proof. exact (fun o law pl lo hi evs => number_range_roundtrip_finite o lo hi evs law pl). Qed.
+
+Theorem C02_number_range_roundtrip_all :
+  forall o : xoracle, display_law o all32 -> show32_plain o ->
+  forall (lo hi : f32) (evs : list wevent),
+  write_xml o (VNumberRange lo hi) = Some (B "NumberRange", Ok evs) ->
+  forall name : bytes, exists revs : list revent,
+    chan_go [] t0 (WStart (B "NumberRange") [(B "name", name)] :: evs ++ [WEnd]) = Ok revs /\
+    read_value_xml o (B "NumberRange") revs = Ok (RVal (VNumberRange (norm_f32 lo) (norm_f32 hi)), []).
+Proof. exact (fun o dl pl lo hi evs => number_range_roundtrip_all o lo hi evs dl pl). Qed.
+
+Theorem C02_number_sequence_roundtrip_finite :
+  forall o : xoracle,
+  (forall (x : f32) (t : bytes),
+     f32_is_nan x = false -> x <> F32_INF -> x <> F32_NINF -> xo_show32 o x = Some t ->
+     xo_parse32 o t = Some (Some x) /\ t <> B "INF" /\ t <> B "-INF" /\ t <> B "NAN") ->
+  show32_plain o ->
+  forall (kps : list (f32 * f32 * f32)) (evs : list wevent),
+  (2 <= length kps)%nat -> Forall (P_kp3 finite32) kps ->
+  write_xml o (VNumberSequence kps) = Some (B "NumberSequence", Ok evs) ->
+  forall name : bytes, exists revs : list revent,
+    chan_go [] t0 (WStart (B "NumberSequence") [(B "name", name)] :: evs ++ [WEnd]) = Ok revs /\
+    read_value_xml o (B "NumberSequence") revs = Ok (RVal (VNumberSequence kps), []).
+Proof. exact (fun o law pl kps evs => number_sequence_roundtrip_finite o kps evs law pl). Qed.
+
+Theorem C02_number_sequence_roundtrip_all :
+  forall o : xoracle, display_law o all32 -> show32_plain o ->
+  forall (kps : list (f32 * f32 * f32)) (evs : list wevent),
+  (2 <= length kps)%nat ->
+  write_xml o (VNumberSequence kps) = Some (B "NumberSequence", Ok evs) ->
+  forall name : bytes, exists revs : list revent,
+    chan_go [] t0 (WStart (B "NumberSequence") [(B "name", name)] :: evs ++ [WEnd]) = Ok revs /\
+    read_value_xml o (B "NumberSequence") revs = Ok (RVal (VNumberSequence (List.map norm_kp3 kps)), []).
+Proof. exact (fun o dl pl kps evs => number_sequence_roundtrip_all o kps evs dl pl). Qed.
+
+Theorem C02_color_sequence_roundtrip_finite :
+  forall o : xoracle,
+  (forall (x : f32) (t : bytes),
+     f32_is_nan x = false -> x <> F32_INF -> x <> F32_NINF -> xo_show32 o x = Some t ->
+     xo_parse32 o t = Some (Some x) /\ t <> B "INF" /\ t <> B "-INF" /\ t <> B "NAN") ->
+  show32_plain o -> (exists z, xo_parse32 o (B "0") = Some (Some z)) ->
+  forall (kps : list (f32 * (f32 * f32 * f32))) (evs : list wevent),
+  (2 <= length kps)%nat -> Forall (P_kp4 finite32) kps ->
+  write_xml o (VColorSequence kps) = Some (B "ColorSequence", Ok evs) ->
+  forall name : bytes, exists revs : list revent,
+    chan_go [] t0 (WStart (B "ColorSequence") [(B "name", name)] :: evs ++ [WEnd]) = Ok revs /\
+    read_value_xml o (B "ColorSequence") revs = Ok (RVal (VColorSequence kps), []).
+Proof. exact (fun o law pl hz kps evs => color_sequence_roundtrip_finite o kps evs law pl hz). Qed.
+
+Theorem C02_color_sequence_roundtrip_all :
+  forall o : xoracle, display_law o all32 -> show32_plain o -> (exists z, xo_parse32 o (B "0") = Some (Some z)) ->
+  forall (kps : list (f32 * (f32 * f32 * f32))) (evs : list wevent),
+  (2 <= length kps)%nat ->
+  write_xml o (VColorSequence kps) = Some (B "ColorSequence", Ok evs) ->
+  forall name : bytes, exists revs : list revent,
+    chan_go [] t0 (WStart (B "ColorSequence") [(B "name", name)] :: evs ++ [WEnd]) = Ok revs /\
+    read_value_xml o (B "ColorSequence") revs = Ok (RVal (VColorSequence (List.map norm_kp4 kps)), []).
+Proof. exact (fun o dl pl hz kps evs => color_sequence_roundtrip_all o kps evs dl pl hz). Qed.
+
+Theorem C02_unique_id_roundtrip :
+  forall (o : xoracle) (index time : N) (random : Z) (evs : list wevent),
+  index < 2 ^ 32 -> time < 2 ^ 32 -> (- 2 ^ 63 <= random < 2 ^ 63)%Z ->
+  write_xml o (VUniqueId index time random) = Some (B "UniqueId", Ok evs) ->
+  forall name : bytes, exists revs : list revent,
+    chan_go [] t0 (WStart (B "UniqueId") [(B "name", name)] :: evs ++ [WEnd]) = Ok revs /\
+    read_value_xml o (B "UniqueId") revs = Ok (RVal (VUniqueId index time random), []).
+Proof. exact unique_id_roundtrip. Qed.
+
+Theorem C02_font_roundtrip :
+  forall (o : xoracle) (f : font) (evs : list wevent),
+  fo_weight f < 65536 ->
+  write_xml o (VFont f) = Some (B "Font", Ok evs) ->
+  forall name : bytes, exists revs : list revent,
+    chan_go [] t0 (WStart (B "Font") [(B "name", name)] :: evs ++ [WEnd]) = Ok revs /\
+    read_value_xml o (B "Font") revs
+      = Ok (RVal (VFont (mkFont (fo_family f) (if font_weight_ok (fo_weight f) then fo_weight f else 400)
+                                (if fo_style f =? 0 then 0 else 1) (fo_cached f))), []).
+Proof. exact font_roundtrip. Qed.
+
+Theorem C02_content_roundtrip :
+  forall (o : xoracle) (c : content) (evs : list wevent),
+  write_xml o (VContent c) = Some (B "Content", Ok evs) ->
+  match c with CObject _ => False | _ => True end /\
+  forall name : bytes, exists revs : list revent,
+    chan_go [] t0 (WStart (B "Content") [(B "name", name)] :: evs ++ [WEnd]) = Ok revs /\
+    read_value_xml o (B "Content") revs = Ok (RVal (VContent c), []).
+Proof. exact content_roundtrip. Qed.
+
+Theorem C02_content_id_roundtrip :
+  forall (o : xoracle) (u : bytes) (evs : list wevent),
+  write_xml o (VContentId u) = Some (B "ContentId", Ok evs) ->
+  forall name : bytes, exists revs : list revent,
+    chan_go [] t0 (WStart (B "ContentId") [(B "name", name)] :: evs ++ [WEnd]) = Ok revs /\
+    read_value_xml o (B "ContentId") revs = Ok (RVal (VContentId u), []).
+Proof. exact content_id_roundtrip. Qed.
+
+Theorem C02_security_capabilities_roundtrip :
+  forall (o : xoracle) (bits : N) (evs : list wevent),
+  bits < 18446744073709551616 ->
+  write_xml o (VSecurityCapabilities bits) = Some (B "SecurityCapabilities", Ok evs) ->
+  forall name : bytes, exists revs : list revent,
+    chan_go [] t0 (WStart (B "SecurityCapabilities") [(B "name", name)] :: evs ++ [WEnd]) = Ok revs /\
+    read_value_xml o (B "SecurityCapabilities") revs = Ok (RVal (VSecurityCapabilities bits), []).
+Proof. exact security_capabilities_roundtrip2. Qed.
+
+Theorem C02_faces_roundtrip :
+  forall (o : xoracle) (bits : N) (evs : list wevent),
+  bits < 64 ->
+  write_xml o (VFaces bits) = Some (B "Faces", Ok evs) ->
+  forall name : bytes, exists revs : list revent,
+    chan_go [] t0 (WStart (B "Faces") [(B "name", name)] :: evs ++ [WEnd]) = Ok revs /\
+    read_value_xml o (B "Faces") revs = Ok (RVal (VFaces bits), []).
+Proof. exact faces_roundtrip. Qed.
+
+Theorem C02_axes_roundtrip :
+  forall (o : xoracle) (bits : N) (evs : list wevent),
+  bits < 8 ->
+  write_xml o (VAxes bits) = Some (B "Axes", Ok evs) ->
+  forall name : bytes, exists revs : list revent,
+    chan_go [] t0 (WStart (B "Axes") [(B "name", name)] :: evs ++ [WEnd]) = Ok revs /\
+    read_value_xml o (B "Axes") revs = Ok (RVal (VAxes bits), []).
+Proof. exact axes_roundtrip. Qed.
+Theorem C02_number_sequence_empty_not_read_back :
+  forall (o : xoracle) (name : bytes),
+       write_xml o (VNumberSequence []) = Some (B "NumberSequence", Ok []) /\
+       chan_go [] t0 (WStart (B "NumberSequence") [(B "name", name)] :: [] ++ [WEnd]) =
+       Ok [RStart (B "NumberSequence") [(B "name", name)]; REnd (B "NumberSequence")] /\
+       read_value_xml o (B "NumberSequence")
+         [RStart (B "NumberSequence") [(B "name", name)]; REnd (B "NumberSequence")] = 
+       Err DE_CONTENT.
+Proof. exact number_sequence_empty_not_read_back. Qed.
+
+Theorem C02_color_sequence_empty_not_read_back :
+  forall (o : xoracle) (name : bytes),
+       write_xml o (VColorSequence []) = Some (B "ColorSequence", Ok []) /\
+       chan_go [] t0 (WStart (B "ColorSequence") [(B "name", name)] :: [] ++ [WEnd]) =
+       Ok [RStart (B "ColorSequence") [(B "name", name)]; REnd (B "ColorSequence")] /\
+       read_value_xml o (B "ColorSequence")
+         [RStart (B "ColorSequence") [(B "name", name)]; REnd (B "ColorSequence")] = 
+       Err DE_CONTENT.
+Proof. exact color_sequence_empty_not_read_back. Qed.
+
